@@ -216,13 +216,18 @@ def check_closed_forms(chk, F, types=TYPES, tag="closed"):
                             continue
                         extra = N if name in ("powi", "powf") else (BASE if name == "log" else None)
                         want0 = real_fn(fname, X, extra)
-                        ok0 = equal(fs[0].v, want0)
-                        chk.ob(kp + "|f0", ok0, "f0 is the function itself applied to the real part", body_loc(F, body),
-                               found=fs[0].v.show(), required=want0.show())
+                        ok0 = decide_equal(chk, kp + "|f0", fs[0].v, want0, body_loc(F, body))
+                        if ok0 is not None:
+                            chk.ob(kp + "|f0", ok0, "f0 is the function itself applied to the real part", body_loc(F, body),
+                                   found=fs[0].v.show(), required=want0.show())
                         for k in range(min(len(fs), order + 1) - 1):
                             try:
                                 d = diff(fs[k].v, dx)
-                                ok = equal(d, fs[k + 1].v)
+                                ok = decide_equal(chk, kp + "|f%d->f%d" % (k, k + 1), fs[k + 1].v, d, body_loc(F, body))
+                                n_links += 1
+                                if ok is None:
+                                    continue
+                                n_links -= 1
                                 chk.ob(kp + "|f%d->f%d" % (k, k + 1), ok,
                                        "f%d is the derivative of f%d with respect to the real part" % (k + 1, k),
                                        body_loc(F, body), found=fs[k + 1].v.show(), required=d.show(),
